@@ -280,6 +280,66 @@ def enum_tests(ctx, sch, rng, budget, tests):
                           'wantkey': None, 'enum': (tdecl, f), 'note': text})
 
 
+def enum_list_tests(ctx, sch, rng, budget, tests):
+    """Quoted multi-symbol lists ("A Type.B Ns.Type.C"): every symbol in every permitted qualification and every order of
+    qualification; the value is the sum (= OR for distinct flags) of the members."""
+    paths = U.table_paths(sch)
+    cands = []
+    for fn, d in sorted(sch.dicts.items()):
+        if d['kind'] != 'table' or T3.cname(d['decl']) not in paths: continue
+        tdecl = d['decl']
+        for f in tdecl['fields']:
+            if 'deprecated' in f['attrs'] or f['vec']: continue
+            k = U.field_kind(sch, tdecl, f)[0]
+            if k == 'enum' or (k == 'scalar' and f['type'] not in ('bool',)): cands.append((fn, tdecl, f))
+    enums = [e for e in sch.enums() if len(e['syms']) >= 2]
+    if not cands or not enums: return
+    made = 0
+    guard = 0
+    while made < budget and guard < budget * 20:
+        guard += 1
+        fn, tdecl, f = rng.choice(cands)
+        k, info = U.field_kind(sch, tdecl, f)
+        n = rng.choice([2, 2, 2, 3, 3, 4])
+        parts, forms = [], []
+        for i in range(n):
+            e = info if (k == 'enum' and rng.random() < 0.6) else rng.choice(enums)
+            sym = rng.choice(e['syms'])[0]
+            opts = ['ns']
+            if e['ns'] == tdecl['ns']: opts.append('type')
+            if k == 'enum' and e is info: opts += ['bare', 'bare']
+            if rng.random() < 0.07: opts = ['bare', 'type', 'ns']      # possibly not permitted here: expected error
+            form = rng.choice(opts)
+            txt = {'bare': sym, 'type': e['name'] + '.' + sym, 'ns': '.'.join(e['ns'] + [e['name'], sym])}[form]
+            if rng.random() < 0.05: txt = txt[:-1] + ('x' if txt[-1] != 'x' else 'y')
+            parts.append(txt); forms.append(form)
+        if len(set(parts)) != len(parts): continue
+        rs = [resolve_symbol(sch, tdecl, f, p) for p in parts]
+        base = info['base'] if k == 'enum' else f['type']
+        size = T3.SCALARS[base]; lo, hi = U.INT_RANGE[base]
+        # keep the running sum of the symbols that resolve inside the field's type (the runtime adds as it goes; an
+        # overflowing or repeated member is outside this property)
+        pv = [r[1] for r in rs if r[0] == 'val']
+        if len(set(pv)) != len(pv) or any(not (lo <= sum(pv[:i + 1]) <= hi) or not (lo <= pv[i] <= hi) for i in range(len(pv))): continue
+        if all(r[0] == 'val' for r in rs):
+            vals = [r[1] for r in rs]
+            if len(set(vals)) != len(vals): continue
+            total = sum(vals)
+            if not (lo <= total <= hi) or any(not (lo <= v <= hi) for v in vals): continue
+            want = ('OK', {f['id']: ('le', size, total)})
+        else:
+            want = ('ERR', None)
+        sep = rng.choice([' ', ' ', ' ', '  '])
+        text = sep.join(parts)
+        if rng.random() < 0.1: text = ' ' + text + ' '
+        kt = b'"' + f['name'].encode() + b'":'
+        inner = b'{' + kt + b'"' + text.encode() + b'"}'
+        hops = paths[T3.cname(tdecl)]
+        tests.append({'klass': 'enum-list-' + '-'.join(forms), 'sch': sch, 'flags': 2, 'path': U.path_ids(hops), 'json': U.wrap(hops, inner), 'want': want,
+                      'mode': 'q', 'fn': fn, 'inner': inner, 'key_off': 1 + len(kt) + 1, 'wantkey': None, 'enum': (tdecl, f), 'note': text, 'nomodel': True})
+        made += 1
+
+
 def model_input(t):
     """the bytes from the first name byte to the end of the JSON text (what lies between buf and end)"""
     js, inner = t['json'], t['inner']
@@ -362,6 +422,7 @@ def run(ctx):
     for s in allsch:
         field_tests(ctx, s, rng, per_name if s.origin != 'corpus' or ctx.thorough else 4, tests)
         enum_tests(ctx, s, rng, 3000 if ctx.thorough else 220, tests)
+        enum_list_tests(ctx, s, rng, 1500 if ctx.thorough else 150, tests)
     ctx.log('%d schemas, %d cases' % (len(allsch), len(tests)))
 
     # implementation
@@ -462,7 +523,7 @@ def model_stage(ctx, allsch, tests):
     rs = ask([('symq' if t['mode'] == 'q' else 'symu', tries[(t['sch'].base, t['fn'])], model_input(t)) for t in ft])
     for t, r in zip(ft, rs): t['model'] = r
     # enum value chain: enum parser of the field's own enum, then local scope, then global scope
-    et = [t for t in tests if 'enum' in t and t['sch'].entries is not None]
+    et = [t for t in tests if 'enum' in t and t['sch'].entries is not None and not t.get('nomodel')]
     state = {}
     def cm(t): return 'constq' if t['mode'] == 'q' else 'constu'
     q1 = []
